@@ -2,7 +2,7 @@
    (Data-race freedom in the sense of the Go memory model is below the grain of the machine: see DESIGN.md.) *)
 From stdpp Require Import gmap.
 From Ristretto Require Import Base.Word Cache.Policy Cache.PolicyProofs Cache.Store Cache.Machine Cache.MachineProofs
-  Cache.SyncProofs Cache.ProtoProofs Cache.ProgressProofs Gen.LockOrder Cache.LockOrder.
+  Cache.SyncProofs Cache.ProtoProofs Cache.ProgressProofs Gen.LockOrder Cache.LockOrder Cache.RingOwn.
 Local Open Scope Z_scope.
 
 (* For every number of goroutines and every schedule of the listed calls (everything but Close): no send on /
@@ -143,3 +143,26 @@ Proof.
   vm_compute. split; [reflexivity|]. split; [reflexivity|].
   exists 2%nat. eexists. split; [reflexivity|]. discriminate.
 Qed.
+
+(* ---- Ring stripes (ring.go): the one structure of the Get path that no mutex guards.  Cache/RingOwn.v models the
+   hand-off of stripes through sync.Pool and of drained batches through itemsCh, with stripes and backing arrays as
+   identities, for any number of goroutines.  For every schedule (pool.Get of any pooled stripe or pool.New, append,
+   drain kept / refused, pool.Put, receipt by processItems, end of tinyLFU.Push, GC of pooled stripes): no goroutine
+   holds two stripes, no stripe is held twice or both held and pooled, and no backing array is shared between two
+   stripes, or between a stripe and a batch that is queued in itemsCh or being read by the policy goroutine.  Hence two
+   goroutines never append to the same array, and the policy goroutine never reads an array a Get can still write. ---- *)
+Theorem C08_ring_exclusive : forall ops,
+  let s := orun o_init ops in
+  NoDup (tids s) /\ NoDup (sids s) /\ NoDup (writers s ++ readers s).
+Proof. exact ring_exclusive. Qed.
+
+Theorem C08_ring_reader_not_writer : forall ops b,
+  let s := orun o_init ops in
+  In b (readers s) -> ~ In b (writers s).
+Proof. exact ring_reader_not_writer. Qed.
+
+(* two goroutines, one pooled stripe changing hands, a kept batch being read while both goroutines hold stripes *)
+Example C08_ring_nonvacuous :
+  let s := orun o_init [OGet 1 None; OStore 0; OKept 0; OPut 0; OGet 2 (Some 0); OGet 1 None; ORecv; OStore 0; ORefused 1]%nat in
+  (tids s, sids s, writers s, readers s) = ([1; 2], [3; 0], [4; 2], [1])%nat.
+Proof. vm_compute. reflexivity. Qed.
